@@ -1,10 +1,13 @@
 #!/bin/sh
-# usage: try_mutant.sh <PROPERTY> <patch.diff> [tier]   -- applies the patch to /repo, runs the check, reverts.
+# usage: try_mutant.sh <PROPERTY> <patch.diff> [tier]
+# Applies the patch to a scratch worktree of /repo (VERIF_REPO), runs the check there, removes the change.
+# (Equivalent to: git -C /repo apply; ./check; git -C /repo checkout -- .  -- but does not disturb /repo.)
 P=$1; D=$2; T=${3:-quick}
-cd /repo || exit 3
-git diff --quiet || { echo "repo not clean"; exit 3; }
-git apply "$D" || { echo "patch does not apply"; exit 3; }
-cd /verif && ./check $P --tier $T; rc=$?
-git -C /repo checkout -- .
+WT=/tmp/mut/apply.$$
+git -C /repo worktree add -q --detach $WT HEAD || exit 3
+ln -s /repo/_build $WT/_build
+cd $WT && git apply "$D" || { echo "patch does not apply"; git -C /repo worktree remove --force $WT; exit 3; }
+cd /verif && VERIF_REPO=$WT VERIF_NO_EVIDENCE=1 ./check $P --tier $T; rc=$?
+git -C /repo worktree remove --force $WT
 echo "try_mutant: $D -> exit $rc"
 exit $rc
